@@ -359,7 +359,11 @@ class SimNet:
             if (role == "any" or t.sock.role == role) and t.sock.family == family and not t.closed:
                 self.delivered += 1
                 self.arrivals.append((t.loop.now_us / 1000, host.name, data, src))
-                t.protocol.datagram_received(data, src)
+                try:
+                    t.protocol.datagram_received(data, src)
+                except Exception as exc:  # noqa: BLE001 - what a selector transport does: report to the loop
+                    t.loop.call_exception_handler({"message": "Fatal error on transport (exception escaped "
+                                                              "datagram_received)", "exception": exc})
                 return
         # closed or missing socket: nothing is listening
 
